@@ -371,4 +371,5 @@ func runC04(cw *caseWriter, tier string, seed uint64) {
 	c04gen(cw, tier, &rng{s: seed})
 	runC101(cw, tier, seed)
 	runC103(cw, tier, seed, 1) // snapshots and compaction inside the composed cluster system (Model/ClusterCommit.v, cstep true)
+	runC104(cw, tier, seed, 3) // snapshot transfer inside the composed cluster system (Model/ClusterSnap.v)
 }
